@@ -38,3 +38,255 @@ theorem matchHex_eq (s : List Char) (h : '\n' ∉ s) : Lex.matchHex s = XSD.hexL
     | a :: b :: r => exact absurd rfl (hr a b r)
 
 end EPV.LexLemmas
+
+namespace EPV.LexLemmas
+open EPV
+
+/-! ### the collapsed string has no space at either end -/
+
+theorem getLast?_dropWhile {α} (p : α → Bool) (l : List α) (h : l.dropWhile p ≠ []) :
+    (l.dropWhile p).getLast? = l.getLast? := by
+  induction l with
+  | nil => simp at h
+  | cons a t ih =>
+    by_cases ha : p a = true
+    · rw [List.dropWhile_cons_of_pos ha] at h ⊢
+      rw [ih h]
+      cases t with
+      | nil => simp at h
+      | cons b u => simp [List.getLast?_cons_cons]
+    · rw [List.dropWhile_cons_of_neg ha]
+
+theorem head?_dropWhile_false {α} (p : α → Bool) (l : List α) (c : α)
+    (h : (l.dropWhile p).head? = some c) : p c = false := by
+  cases hl : l.dropWhile p with
+  | nil => rw [hl] at h; cases h
+  | cons a t =>
+    rw [hl] at h
+    simp only [List.head?_cons, Option.some.injEq] at h
+    subst h
+    have := List.head_dropWhile_not p (l := l) (by rw [hl]; simp)
+    simp only [hl, List.head_cons] at this
+    simpa using this
+
+theorem stripSp_ends (x : List Char) :
+    (∀ c, (Lex.stripSp x).head? = some c → c ≠ ' ') ∧ (∀ c, (Lex.stripSp x).getLast? = some c → c ≠ ' ') := by
+  unfold Lex.stripSp
+  constructor
+  · intro c hc
+    rw [List.head?_reverse] at hc
+    by_cases hB : ((x.dropWhile (· == ' ')).reverse.dropWhile (· == ' ')) = []
+    · rw [hB] at hc; cases hc
+    · rw [getLast?_dropWhile _ _ hB, List.getLast?_reverse] at hc
+      have := head?_dropWhile_false _ _ _ hc
+      simpa using this
+  · intro c hc
+    rw [List.getLast?_reverse] at hc
+    have := head?_dropWhile_false _ _ _ hc
+    simpa using this
+
+theorem dropWhile_eq_self_of_head {α} (p : α → Bool) (l : List α)
+    (h : ∀ c, l.head? = some c → p c = false) : l.dropWhile p = l := by
+  cases l with
+  | nil => rfl
+  | cons a t =>
+    have := h a rfl
+    rw [List.dropWhile_cons_of_neg (by simp [this])]
+
+/-- on the collapsed string `str.strip()` is the identity, provided the string has no U+00A0 at its
+ends — which an accepted hexBinary cannot have (`encode('ascii')` fails on it) -/
+theorem pyStrip_collapse (s : List Char)
+    (h160 : ∀ c ∈ Lex.collapse s, c.toNat = 160 → False) : Lex.pyStrip (Lex.collapse s) = Lex.collapse s := by
+  have hends := stripSp_ends (Lex.subWhite false s)
+  have hchar : ∀ c ∈ Lex.collapse s, c ≠ ' ' → Lex.isPyStripWhite c = false := by
+    intro c hc hne
+    unfold Lex.isPyStripWhite
+    rcases collapse_no_white s c hc with h | h
+    · exact absurd h hne
+    · rw [h]
+      have : (c.toNat == 160) = false := by
+        rw [beq_eq_false_iff_ne]; exact fun e => h160 c hc e
+      simp [this]
+  unfold Lex.pyStrip
+  have h1 : (Lex.collapse s).dropWhile Lex.isPyStripWhite = Lex.collapse s := by
+    apply dropWhile_eq_self_of_head
+    intro c hc
+    have hm : c ∈ Lex.collapse s := List.mem_of_mem_head? hc
+    exact hchar c hm (hends.1 c hc)
+  rw [h1]
+  have h2 : (Lex.collapse s).reverse.dropWhile Lex.isPyStripWhite = (Lex.collapse s).reverse := by
+    apply dropWhile_eq_self_of_head
+    intro c hc
+    rw [List.head?_reverse] at hc
+    have hm : c ∈ Lex.collapse s := List.mem_of_getLast? hc
+    exact hchar c hm (hends.2 c hc)
+  rw [h2, List.reverse_reverse]
+
+theorem hexDigit_ascii_nonspace (c : Char) (h : XSD.isHexDigit c = true) :
+    Lex.isAscii c = true ∧ c ≠ ' ' ∧ c ≠ '\n' := by
+  simp only [XSD.isHexDigit, XSD.isDigit, Char.le_def, Bool.or_eq_true, Bool.and_eq_true,
+    decide_eq_true_eq, UInt32.le_iff_toNat_le, Char.reduceVal, UInt32.reduceToNat] at h
+  have hb : c.toNat < 128 ∧ c.toNat ≠ 32 ∧ c.toNat ≠ 10 := by
+    show c.val.toNat < 128 ∧ c.val.toNat ≠ 32 ∧ c.val.toNat ≠ 10
+    omega
+  refine ⟨by unfold Lex.isAscii; exact decide_eq_true hb.1, ?_, ?_⟩
+  · intro e; subst e; exact hb.2.1 (by decide)
+  · intro e; subst e; exact hb.2.2 (by decide)
+
+/-- **hexBinary constructor** succeeds exactly when the collapsed string is hexOctet*, and then stores
+the collapsed string itself -/
+theorem hexCtor_eq (s : List Char) :
+    Lex.hexCtor s = if XSD.hexLex (Lex.collapse s) then .ok (Lex.collapse s) else .error .value := by
+  unfold Lex.hexCtor Lex.hexIsValid
+  simp only
+  by_cases hl : XSD.hexLex (Lex.collapse s) = true
+  · -- all characters are hex digits
+    have hall : ∀ c ∈ Lex.collapse s, XSD.isHexDigit c = true := by
+      unfold XSD.hexLex at hl
+      simp only [Bool.and_eq_true, List.all_eq_true] at hl
+      exact hl.2
+    have h160 : ∀ c ∈ Lex.collapse s, c.toNat = 160 → False := by
+      intro c hc e
+      have := (hexDigit_ascii_nonspace c (hall c hc)).1
+      simp only [Lex.isAscii, decide_eq_true_eq] at this
+      omega
+    have hfil : (Lex.collapse s).filter (· != ' ') = Lex.collapse s := by
+      rw [List.filter_eq_self]
+      intro c hc
+      simpa using (hexDigit_ascii_nonspace c (hall c hc)).2.1
+    have hasc : ((Lex.collapse s).all Lex.isAscii) = true := by
+      rw [List.all_eq_true]; intro c hc; exact (hexDigit_ascii_nonspace c (hall c hc)).1
+    rw [pyStrip_collapse s h160, matchHex_eq _ (collapse_no_nl s), hl, hfil, hasc]
+    rfl
+  · simp only [hl, Bool.false_eq_true, ↓reduceIte]
+    by_cases hm : Lex.matchHex (Lex.pyStrip (Lex.collapse s)) = true
+    · simp only [hm, ↓reduceIte]
+      by_cases hasc : ((Lex.collapse s).filter (· != ' ')).all Lex.isAscii = true
+      · exfalso
+        have h160 : ∀ c ∈ Lex.collapse s, c.toNat = 160 → False := by
+          intro c hc e
+          have hne : c ≠ ' ' := by intro e2; subst e2; revert e; decide
+          have hcf : c ∈ (Lex.collapse s).filter (· != ' ') := by
+            rw [List.mem_filter]; exact ⟨hc, by simpa using hne⟩
+          rw [List.all_eq_true] at hasc
+          have := hasc c hcf
+          simp only [Lex.isAscii, decide_eq_true_eq] at this
+          omega
+        rw [pyStrip_collapse s h160, matchHex_eq _ (collapse_no_nl s)] at hm
+        exact hl hm
+      · simp [hasc]
+    · simp [hm]
+
+end EPV.LexLemmas
+
+namespace EPV.LexLemmas
+open EPV
+
+/-! ### base64Binary -/
+
+theorem isB64_eq (c : Char) : Lex.isB64 c = XSD.isB64Char c := by
+  unfold Lex.isB64 XSD.isB64Char
+  rw [← isDigit_eq]; rfl
+
+/-- the spec's formulation on a space-free string -/
+def b64P (u : List Char) : Bool :=
+  let n := u.length
+  n % 4 == 0 &&
+  (n == 0 ||
+    let body := u.take (n - 2)
+    let c := u.getD (n - 2) ' '
+    let d := u.getD (n - 1) ' '
+    body.all XSD.isB64Char &&
+    ((XSD.isB64Char c && XSD.isB64Char d) ||
+     (d == '=' && "AEIMQUYcgkosw048".toList.contains c) ||
+     (d == '=' && c == '=' && "AQgw".toList.contains (u.getD (n - 3) ' '))))
+
+theorem base64Lex_eq (s : List Char) : XSD.base64Lex s = b64P (s.filter (· != ' ')) := rfl
+
+theorem matchB64_len (u : List Char) (h : Lex.matchB64 u = true) : u.length % 4 = 0 := by
+  induction u using Lex.matchB64.induct with
+  | case1 => rfl
+  | case2 a b c d => simp
+  | case3 a b c d r hr ih =>
+    rw [Lex.matchB64] at h
+    · simp only [Bool.and_eq_true] at h
+      have := ih h.2
+      simp only [List.length_cons]; omega
+    · exact hr
+  | case4 u h1 h2 h3 =>
+    rw [Lex.matchB64] at h
+    · cases h
+    · exact h1
+    · exact h2
+    · exact h3
+
+theorem b64P_cons4 (a b c d : Char) (r : List Char) (hr : 4 ≤ r.length) :
+    b64P (a :: b :: c :: d :: r) =
+      (XSD.isB64Char a && XSD.isB64Char b && XSD.isB64Char c && XSD.isB64Char d && b64P r) := by
+  unfold b64P
+  simp only [List.length_cons]
+  have e1 : r.length + 1 + 1 + 1 + 1 - 2 = (r.length - 2) + 1 + 1 + 1 + 1 := by omega
+  have e2 : r.length + 1 + 1 + 1 + 1 - 1 = (r.length - 1) + 1 + 1 + 1 + 1 := by omega
+  have e3 : r.length + 1 + 1 + 1 + 1 - 3 = (r.length - 3) + 1 + 1 + 1 + 1 := by omega
+  have e4 : (r.length + 1 + 1 + 1 + 1) % 4 = r.length % 4 := by omega
+  have n0 : (r.length + 1 + 1 + 1 + 1 == 0) = false := by simp
+  have n1 : (r.length == 0) = false := by
+    rw [beq_eq_false_iff_ne]; omega
+  rw [e1, e2, e3, e4, n0, n1]
+  simp only [List.take_succ_cons, List.getD_cons_succ, List.all_cons, Bool.false_or]
+  cases XSD.isB64Char a <;> cases XSD.isB64Char b <;> cases XSD.isB64Char c <;> cases XSD.isB64Char d <;>
+    simp
+
+/-- the base64 pattern (full match on the space-free string) = the XSD lexical space -/
+theorem matchB64_eq (u : List Char) : Lex.matchB64 u = b64P u := by
+  induction u using Lex.matchB64.induct with
+  | case1 => rfl
+  | case2 a b c d =>
+    simp only [Lex.matchB64, b64P, isB64_eq, Lex.isB16, Lex.isB04]
+    simp only [List.length_cons, List.length_nil, List.take_succ_cons, List.take_zero, List.all_cons,
+      List.all_nil, List.getD_cons_succ, List.getD_cons_zero]
+    cases XSD.isB64Char a <;> cases XSD.isB64Char b <;> cases XSD.isB64Char c <;> cases XSD.isB64Char d <;>
+      cases (d == '=') <;> cases (c == '=') <;> simp
+  | case3 a b c d r hr ih =>
+    have hrne : r ≠ [] := fun e => hr (by rw [e])
+    rw [Lex.matchB64]
+    · by_cases hlen : r.length % 4 = 0
+      · have h4 : 4 ≤ r.length := by
+          have := List.length_pos_iff.mpr hrne; omega
+        rw [b64P_cons4 a b c d r h4, ih, isB64_eq, isB64_eq, isB64_eq, isB64_eq]
+      · have hm : Lex.matchB64 r = false := by
+          cases hh : Lex.matchB64 r with
+          | false => rfl
+          | true => exact absurd (matchB64_len r hh) hlen
+        have hp : b64P (a :: b :: c :: d :: r) = false := by
+          unfold b64P
+          simp only [List.length_cons]
+          have : ((r.length + 1 + 1 + 1 + 1) % 4 == 0) = false := by
+            rw [beq_eq_false_iff_ne]; omega
+          rw [this]; rfl
+        rw [hm, hp]; simp
+    · exact hr
+  | case4 u h1 h2 h3 =>
+    rw [Lex.matchB64]
+    · -- length 1, 2, 3 or ≥ 5 with …: not a multiple of four is the only possibility here
+      match u with
+      | [] => exact absurd rfl h1
+      | [_] => rfl
+      | [_, _] => rfl
+      | [_, _, _] => rfl
+      | [a, b, c, d] => exact absurd rfl (h2 a b c d)
+      | a :: b :: c :: d :: e :: r => exact (h3 a b c d (e :: r) (by simp)).elim
+    · exact h1
+    · exact h2
+    · exact h3
+
+/-- **base64Binary constructor**: succeeds exactly when the collapsed string is in the XSD lexical space,
+and stores it without its spaces -/
+theorem b64Ctor_eq (s : List Char) :
+    Lex.b64Ctor s =
+      if XSD.base64Lex (Lex.collapse s) then .ok ((Lex.collapse s).filter (· != ' ')) else .error .value := by
+  unfold Lex.b64Ctor Lex.b64IsValid
+  simp only
+  rw [matchB64_eq, ← base64Lex_eq]
+
+end EPV.LexLemmas
